@@ -183,10 +183,20 @@ CHECKS = {
    text='Component theorems (15, closed): the Gallina transcription of tm/tape.py Tape.step equals the Rust tape model on every tape with positive counts (C17_py_step_eq_rs, C17_py_history_eq_rs) and all '
         'observers agree; additive count_apps / apply_rule / difference inference / make_rule of tm/rules.py equal the Rust models on in-range inputs (C17_py_count_apps_eq_rs, C17_py_apply_eq_rs, '
         'C17_py_diff_eq_rs_additive, C17_py_make_rule_eq_rs_additive), with machine-checked witnesses of where they differ outside the range (u64 overflow, i32 truncation) and of the pre-fix F4 '
-        'disagreement. Whole-run agreement is NOT a theorem (tm/machine.py, tm/prover.py are not modelled): it is established by three-way execution - the real Python Machine under CPython 3.12 with a '
-        'freshly built extension, the real Rust run_prover, and the models - on tree leaves and named machines; runs outside the property quantifier (non-additive rules, own limits) are counted, not compared.',
-   note=COMMON_NOTE + 'The extension is rebuilt from /repo on every run in a scratch directory under /tmp (removed afterwards). CPython 3.12 at /root/.pyenv/versions/3.12.1.',
-   tech='Rocq/Coq component proofs (Python model = Rust model) + three-way differential execution of whole runs'),
+        'disagreement. Whole runs (12 more, closed): tm/prover.py and tm/machine.py Machine.run are modelled (PyProverModel, PyMachineModel: Prover, EnumTape with block identity, try_rule, get_min_sig, '
+        'the run loop; additive fragment, outcome PyOutside where Python would build a multiplicative rule) and C17_py_rs_run_agree proves, by a lock-step simulation of the two loops, that '
+        'run_inside comp lim = true, py_run comp lim = PyDone r and run_prover comp lim = Ok r\' imply the same outcome kind, marks, rule applications and blank record (results_agree); '
+        'prover level: C17_py_try_rule_agree, C17_py_run_simulator_agree, C17_py_rs_make_rule, C17_rs_mult_is_py_mult. The decidable guard run_inside names the places where tm/ and src/ are '
+        'different programs (D1 90_000-delta cap, D2 sig_compatible span lengths, D3 second-difference inference, D4 EnumTape.get_count registers, D5 u64/i32, D6 cycle cast); concrete witness '
+        'programs on which the compared fields differ are machine-checked (C17_whole_run_differs_D1, _D3: infrul vs xlimit; both are runs the check counts outside the quantifier) and component '
+        'witnesses (C17_min_sig_differs_D4, C17_cycle_cast_differs_D6); C17_py_min_sig_agree_plain / C17_min_sig_guard_plain (Python\'s identity-keyed EnumTape with re-used block objects = Rust\'s '
+        'indexed one; without a rule application in the replay the min-signatures are equal); C17_run_nonvacuous. Tie: real Python Machine.run = py_run on every explored run (kind, marks, rulapp, blank record, steps, '
+        'cycles, configurations, complete rule table), real Tape.sig_compatible / EnumTape / Prover.get_rule / get_min_sig = models (component streams), real Rust run_prover = ProverModel; the '
+        'two real implementations are compared directly on tree leaves and named machines; the theorem guard is evaluated on every run; runs outside the property quantifier (non-additive rules, '
+        'own limits) are counted, not compared.',
+   note=COMMON_NOTE + 'The extension is rebuilt from /repo on every run in a scratch directory under /tmp (removed afterwards). CPython 3.12 at /root/.pyenv/versions/3.12.1. '
+        'Level stays other: the guard D4 is stated as equality of the two computed min-signatures, and the models are tied to the code by execution, not by translation.',
+   tech='Rocq/Coq component proofs and guarded whole-run simulation theorem (Python model = Rust model) + three-way differential execution of whole runs + component streams'),
  'C18': dict(cat='other', sec='DESIGN.md §6 C18, §12.3',
    text='Partial by design: the MODULAR machinery of tm/num.py (Add/Mul/Div/Exp.__mod__, hard-coded residues, find_period, the binary loop, exp_mod_special_cases with all '
         '818 table rows) is transcribed to Gallina and PROVED sound for all expression trees and all moduli (C18_mod_sound: the model answer equals eval(e) mod m whenever every '
